@@ -44,7 +44,17 @@ def call_blocks(body, *suffixes, cleanup=False):
 
 
 def inl(crate, body, thread=True, **kw):
-    ib = inline(crate, body, local_picker(crate, **kw))
+    pk = local_picker(crate, **kw)
+    ib = inline(crate, body, pk)
+    from ..desugar import desugar
+    for _ in range(3):
+        try:
+            db = desugar(crate, ib)
+        except Exception:
+            db = None
+        if db is None:
+            break
+        ib = inline(crate, db, pk)
     if thread:
         from ..thread import thread_jumps
         try:
@@ -535,3 +545,21 @@ def strip_views(t):
         return t
 
 
+
+
+def leaf_field_name(t):
+    """last (innermost) string-named field on the access path of t: `&*(*self.counters).bytes_sent` -> bytes_sent"""
+    while True:
+        k = t[0]
+        if k in ('ref', 'deref', 'unsize', 'autoderef', 'conv', 'load', 'payload', 'mutated'):
+            t = t[1]
+        elif k == 'cast':
+            t = t[4]
+        elif k == 'call' and isinstance(t[1], str) and len(t[2]) == 1 and t[1].rsplit('::', 1)[-1] in VIEW_FNS + ('deref',):
+            t = t[2][0]
+        elif k == 'field':
+            if isinstance(t[2], str) and not t[2].isdigit():
+                return t[2]
+            t = t[1]
+        else:
+            return None
